@@ -76,13 +76,19 @@ def std_path_checks(res, I, S, outs, model_fn, want_return=True):
     return rets
 
 
-def run_obligations(rep, obligations, jobs=None):
+def run_obligations(rep, obligations, jobs=None, validate=True):
     """obligations: list of (fn, arg). Runs them in parallel; records results in the report; returns result dicts."""
     t0 = time.time()
     with Scratch(rep.pid.lower()) as sc:
         prog = runner.load_program(sc)
         rep.extra["mir"] = {"bodies": len(prog.bodies), "dump_s": round(getattr(prog, "dump_s", 0), 1),
                             "unparsed_bodies": [b.name for b in prog.errors][:5]}
+        if validate:
+            from ..mirsym import validate as _val
+            tv = _val.run(prog)
+            rep.extra["translator_validation"] = tv
+            rep.assumptions.append("translator validation: concrete-mode interpretation of the same MIR agrees with the native build on %d values "
+                                   "(%s) on this run" % (tv["values_compared"], ", ".join(tv["functions"])))
         results = runner.pmap(_call, obligations, jobs)
     out = []
     for (fn, arg), (status, r) in zip(obligations, results):
